@@ -692,7 +692,7 @@ def queries(tier):
                          expect_cover=["rejected", "accepted", "accepted-non-ascii"], family="value",
                          config={"entry": tag, "holds": list(olds)}))
     for tag, olds in ([("setitem", ()), ("append", ("old",)), ("ctor-kw", ())] if not T else
-                      [(t, ()) for t in ENTRIES] + [("append", ("old1", "old2")), ("setdefault", ())]):
+                      [(t, ()) for t in ENTRIES] + [("append", ("old1", "old2")), ("setdefault", ("old",))]):
         for rng in (["dense"] if not T and tag != "setitem" else ["dense", "pow2"] if not T else ["dense", "dense2", "pow2", "big"]):
             tails = (3,) if not T else tuple(LONG_TAILS)
             out.append(Q("value-long/%s%s/%s" % (tag, len(olds) or "", rng),
